@@ -3,7 +3,11 @@
 import json, sys
 pid, wt = sys.argv[1], sys.argv[2]
 n = int(sys.argv[3]) if len(sys.argv) > 3 else 3
+round2 = len(sys.argv) > 4 and sys.argv[4] == 'round2'
 p = next(json.loads(l) for l in open('/verif/properties.jsonl') if json.loads(l)['id'] == pid)
+extra = ""
+if round2:
+    extra = ("- This is a second round: an earlier round already produced simple single-site slips. Aim for DIFFERENT kinds now: at least one mutant where two sites that each look fine alone cooperate; at least one that only shows under an unusual configuration, mode or API path (library API vs command line, reused objects, character mode, CSV/TSV modes, sandbox flags, multiple files, very long runs, inputs straddling a 64 KiB buffer, values near 2^53 / 2^63, invalid UTF-8) ; at least one on an error / early-exit / cleanup path. Do not simply revert a past bug fix visible in the git log.\n")
 print(f"""You are testing how well a verification effort can detect regressions in the Go project benhoyt/goawk (a POSIX AWK interpreter: lexer, parser, resolver, bytecode compiler, VM, CSV modes). You get ONLY the text of one semantic property and your own scratch git worktree of the repository at {wt}. Work only inside {wt} and under /tmp/{pid.lower()}_mut/ for scratch files. Do NOT read or touch /verif or /repo. No network. Each shell call: `export GOFLAGS=-mod=mod GOPROXY=off GOSUMDB=off GOTOOLCHAIN=local`.
 
 PROPERTY {pid}: {p['title']}
@@ -15,7 +19,7 @@ TASK: produce {n} DIFFERENT realistic changes ("mutants") to the goawk source, e
 
 Requirements for each mutant:
 - It must look like a plausible maintenance edit or refactoring slip (an off-by-one, a dropped reset, a swapped branch, an optimisation that forgets a case, a condition moved, a cache not invalidated, two sites that each look fine alone), NOT a blatant sabotage, and it must need something SPECIFIC to manifest — a particular input shape, a multi-step sequence, an unusual configuration, a boundary (buffer edge, huge number, empty list), a particular interleaving or fault point — not something ordinary use would expose at once. Spread the {n} mutants over different mechanisms/sites of the property.
-- Change only non-test source files (no *_test.go, no testdata).
+{extra}- Change only non-test source files (no *_test.go, no testdata).
 - Provide a DEMONSTRATION: a small Go program or `go test` file (kept OUTSIDE the patch, under /tmp/{pid.lower()}_mut/<k>/) or a shell command using a freshly built goawk binary, that FAILS (shows the property violated) with the mutant applied and PASSES on the unmodified tree. Actually run it both ways and report the outputs.
 
 Deliver for each mutant k = 1..{n}, in /tmp/{pid.lower()}_mut/<k>/: `patch.diff` (output of `git -C {wt} diff` with only that mutant applied — reset the worktree between mutants with `git -C {wt} checkout -- .`), the demonstration files, and `meta.json` with keys: property, title (one line), what_it_breaks, needs_to_manifest, demo_cmd, demo_output_with_mutant, demo_output_without, tests_before (number of passing tests or FAIL lines), tests_after. Leave the worktree clean (no mutant applied) at the end. Reply with a short summary table of the {n} mutants.""")
